@@ -31,6 +31,8 @@ CLAIMED = {
             "FastAPI POST is not exercisable in this sandbox (python-multipart missing); invariance under optional whitespace is checked by the run (OWS-rich generated headers), not yet a theorem; q-values with at most 3 decimals"),
     "C15": ("6 C15", "PARTIAL. Proved on the model of the four reference classes: C15_roundtrip / C15_first_separator / C15_rejects_separator_free (print and parse, first separator only), C15_eq_pair / C15_eq_equivalence / C15_name_never_matters / C15_tuple_is_plain / C15_hash (for ANY hash of the pair), C15_lt_strict_total (strict total lexicographic order), C15_ctx (converter context standardises or rejects), C15_triples. Not modelled: pydantic (frozen, JSON, validation machinery) and csv / file I/O -- exercised on the real classes and real files (CR, LF, tab, quotes, Unicode in identifiers).",
             "the model's observation vector is also the specification (the functions are the definitions of the property's notions); immutability, JSON and file round trips are observed only"),
+    "C16": ("6 C16", "PARTIAL. Proved on the model: C16_pd / C16_pd_error (the target column holds the scalar results cell by cell, None = NA, all other cells preserved; an error is the first failing cell's), C16_first_error, C16_file_ok (chosen column converted, missing results -> empty cell, header / other columns / row order preserved), C16_file_atomic (if any row fails, at whatever position, the file is unchanged). The scalar methods are the proved query model. Not modelled: pandas and csv -- exercised with real data frames and real files whose bytes are compared after failing calls.",
+            "the model is two-phase by construction, like _file_helper; that the real function does not write before it has read everything is what the byte comparison checks"),
 }
 NOT_YET = {}
 
